@@ -76,6 +76,21 @@ def history(rnd, hist_id, length):
             plan.append('op')
             ops.append({'op': 'model.snap', 'm': m, 'rebuild': True})
             plan.append('snap')
+    if shape == 'funcs' and rnd.random() < 0.5:
+        # the same caller is calculated immediately before and after the body of the function it calls (directly / through another
+        # function) is edited: nothing else is evaluated on this model in between
+        caller = rnd.choice([4, 11])
+        body = rnd.choice(['[a∈ℬ($[0])] a\\Pr1($[2])', '[a∈ℬ($[0])] a', '[a∈ℬ($[0])] a∪Pr1($[2])', '[a∈ℬ($[0])] D{x∈a | x∉Pr1($[2])}'])
+        motif = [{'op': 'model.op', 'm': m, 'k': 'addelem', 'uid': {'idx': 0}, 'name': 'm1'}, {'op': 'model.op', 'm': m, 'k': 'addelem', 'uid': {'idx': 0}, 'name': 'm2'},
+                 {'op': 'model.op', 'm': m, 'k': 'setstruct', 'uid': {'idx': 2}, 'value': {'s': [{'tuplev': [1, 1]}]}},
+                 {'op': 'model.op', 'm': m, 'k': 'calculate', 'uid': {'idx': caller}},
+                 {'op': 'model.op', 'm': m, 'k': 'setexpr', 'uid': {'idx': 3}, 'text': body},
+                 {'op': 'model.op', 'm': m, 'k': 'calculate', 'uid': {'idx': caller}}]
+        for op in motif:
+            ops.append(op)
+            plan.append('op')
+            ops.append({'op': 'model.snap', 'm': m, 'rebuild': True})
+            plan.append('snap')
     for _ in range(length):
         r = rnd.random()
         op = {'op': 'model.op', 'm': m}
